@@ -5,6 +5,7 @@ import (
 	"math/big"
 	"os"
 	"strings"
+	"time"
 
 	"verifharness/core"
 )
@@ -61,8 +62,10 @@ func edgeField(r *core.Rand) string {
 }
 
 func randCurveX(r *core.Rand) string {
-	k := privFromHex(hx(r.Bytes(32)))
-	return hx(k.PubKey().SerializeCompressed()[1:])
+	b := hx(r.Bytes(32))
+	return guarded(strings.Repeat("0", 63)+"1", func() string {
+		return hx(privFromHex(b).PubKey().SerializeCompressed()[1:])
+	})
 }
 
 func genEllswift(g *core.Gen) {
@@ -143,7 +146,7 @@ func genEllswift(g *core.Gen) {
 		// the encoding chosen by EllswiftCreate is the sender's free choice: read it back and let
 		// the reference validate it (it must decode to the public key of the private key)
 		seed := hx(r.Bytes(16))
-		got := strings.Fields(execCreate(unhx(pre), unhx(seed)))
+		got := strings.Fields(guarded("", func() string { return execCreate(unhx(pre), unhx(seed)) }))
 		if len(got) < 2 {
 			got = []string{"-", "-"}
 		}
@@ -173,7 +176,7 @@ func genIO(g *core.Gen) {
 	}
 	for i := 0; i < g.N(40, 1500); i++ {
 		x, seed := randCurveX(r), hx(r.Bytes(16))
-		got := strings.Fields(execXell(x, nil, unhx(seed)))
+		got := strings.Fields(guarded("", func() string { return execXell(x, nil, unhx(seed)) }))
 		if len(got) < 1 {
 			got = []string{"-"}
 		}
@@ -469,13 +472,10 @@ func (c epCfg) line(inp []byte, acts []string) string {
 // under test must not kill the generator: the case is still emitted (with
 // whatever was recorded) and Exec will report the panic against the model.
 func (c epCfg) written(inp []byte, acts []string) (w []byte) {
-	defer func() {
-		if r := recover(); r != nil {
-			w = nil
-		}
-	}()
-	_, w = runEp(c.roleTok(), c.magic, c.pre, c.seed, c.gLen, c.decoys, inp, acts)
-	return w
+	return unhx(guarded("-", func() string {
+		_, w := runEp(c.roleTok(), c.magic, c.pre, c.seed, c.gLen, c.decoys, inp, acts)
+		return hx(w)
+	}))
 }
 
 func (c epCfg) decoyWire() int {
@@ -855,5 +855,26 @@ func genLoop(g *core.Gen) {
 		}
 		kase(g, "loop", true, fmt.Sprintf("C19 loop %s %s %s %d %d %s %s %s %s", pickMagic(r), hx(r.Bytes(16)), hx(r.Bytes(16)),
 			gl(), gl(), dec(), dec(), pk(), pk()))
+	}
+}
+
+// guarded runs real code on behalf of the GENERATOR: a panic or a hang of the (possibly mutated)
+// code under test must not take the generator down; the fallback value is used instead and the
+// emitted case will show the problem when it is executed against the reference.
+func guarded(fallback string, f func() string) (out string) {
+	done := make(chan string, 1)
+	go func() {
+		defer func() {
+			if r := recover(); r != nil {
+				done <- fallback
+			}
+		}()
+		done <- f()
+	}()
+	select {
+	case out = <-done:
+		return out
+	case <-time.After(20 * time.Second):
+		return fallback
 	}
 }
